@@ -16,4 +16,15 @@ def refFields : List (String × String × String × Bool) := [
 def pkgVarWrites : List (String × String) := [
 ]
 
+/-- process-wide registries: (package, package-level variable of slice/map type, kind, the functions
+    of the package that assign / append to / index-assign it) -/
+def pkgGlobals : List (String × String × String × List String) := [
+  ("bmnumbers", "AllDynamicalTypes", "slice", ["init"]),
+  ("bmnumbers", "AllMatchers", "map", ["EventuallyCreateType", "init"]),
+  ("bmnumbers", "AllTypes", "slice", ["EventuallyCreateType", "init"]),
+  ("procbuilder", "AllDynamicalInstructions", "slice", ["init"]),
+  ("procbuilder", "Allopcodes", "slice", ["EventuallyCreateInstruction", "init"]),
+  ("procbuilder", "Allshared", "slice", ["init"])
+]
+
 end BMV.Gen.OpcodeState
